@@ -66,6 +66,26 @@ class State(object):
         return (self.status, tuple(sorted(self.attrs.items())), tuple(sorted(self.atoms.items())), tuple(sorted(self.locals.items())))
 
 
+class _ConstAttr(ast.NodeTransformer):
+    """getattr(<name>, '<const>') -> <name>.<const> ;  statement setattr(<name>, '<const>', v) -> <name>.<const> = v"""
+
+    def visit_Call(self, node):
+        self.generic_visit(node)
+        if isinstance(node.func, ast.Name) and node.func.id == "getattr" and len(node.args) == 2 and isinstance(node.args[0], ast.Name) \
+                and isinstance(node.args[1], ast.Constant) and isinstance(node.args[1].value, str) and node.args[1].value.isidentifier():
+            return ast.copy_location(ast.Attribute(value=node.args[0], attr=node.args[1].value, ctx=ast.Load()), node)
+        return node
+
+    def visit_Expr(self, node):
+        self.generic_visit(node)
+        c = node.value
+        if isinstance(c, ast.Call) and isinstance(c.func, ast.Name) and c.func.id == "setattr" and len(c.args) == 3 and not c.keywords and isinstance(c.args[0], ast.Name) \
+                and isinstance(c.args[1], ast.Constant) and isinstance(c.args[1].value, str) and c.args[1].value.isidentifier():
+            tgt = ast.Attribute(value=c.args[0], attr=c.args[1].value, ctx=ast.Store())
+            return ast.copy_location(ast.Assign(targets=[ast.copy_location(tgt, c)], value=c.args[2]), node)
+        return node
+
+
 class _GetattrSelf(ast.NodeTransformer):
     """getattr(self, '<const>'[, <falsy default>]) -> self.<const>"""
 
@@ -158,6 +178,7 @@ def unroll_literal_loops(fn):
                         mod = ast.Module(body=_clone_stmts(body), type_ignores=[])
                         _Subst(mapping).visit(mod)
                         _GetattrSelf().visit(mod)
+                        _ConstAttr().visit(mod)
                         for st1 in mod.body:
                             for x in ast.walk(st1):
                                 if hasattr(x, "lineno"):
